@@ -150,6 +150,28 @@ def fam_ops(rng):
     return rs, cfg, _ops_case()
 
 
+def fam_deepstack(rng):
+    """start-condition stacks deep enough to be grown (YY_START_STACK_INCR = 25) once or several times"""
+    rs = rules.gen_ruleset(rng, p_trail=0.0)
+    cfg = rt.Config(ledger=rng.random() < 0.7, backend=_backend(rng), topt=rng.choice(TOPTS), interactive=rng.choice([None, False]),
+                    stack=True)
+    inner = _ops_case(kinds=['push', 'push', 'pop', 'top', 'begin', 'return'])
+
+    def gen(rng, rs, cfg):
+        c = inner(rng, rs, cfg)
+        nsc = len(rs.scs)
+        n1 = rng.choice([3, 24, 25, 26, 30, 51, 80])
+        pre = []
+        for _ in range(n1):
+            pre += ['push:%d' % rng.randrange(nsc), 'top']      # yy_top_state() only where the stack is known to be non-empty
+        n2 = rng.choice([0, n1 // 2, n1, n1 + 1])
+        post = ['pop', 'start'] * n2
+        main = [m for m in c['main'] if m != 'destroy']
+        c['main'] = pre + main + post + ['destroy']
+        return c
+    return rs, cfg, gen
+
+
 def fam_unput(rng):
     rs = rules.gen_ruleset(rng, p_trail=0.0)
     cfg = rt.Config(ledger=rng.random() < 0.5, backend=_backend(rng), topt=rng.choice(TOPTS), interactive=rng.choice([None, False]),
@@ -158,7 +180,7 @@ def fam_unput(rng):
 
 
 def fam_reject(rng):
-    rs = rules.gen_ruleset(rng, p_trail=0.0)
+    rs = rules.gen_ruleset(rng, p_trail=rng.choice([0.0, 0.0, 0.3]))
     cfg = rt.Config(ledger=rng.random() < 0.5, backend=_backend(rng), topt=_compressed(rng), interactive=rng.choice([None, False]),
                     reject=True, lineno=rng.random() < 0.4, array=rng.random() < 0.3, yymore=rng.random() < 0.4)
     return rs, cfg, _ops_case(kinds=['reject', 'reject', 'begin', 'return'] + (['more'] if cfg.yymore else []), small=False)
@@ -351,4 +373,4 @@ def fam_matrix(rng, idx):
 
 
 FAMILIES = {'buffers': fam_buffers, 'include': fam_include, 'plain': fam_plain, 'ops': fam_ops, 'unput': fam_unput, 'reject': fam_reject,
-            'lineno': fam_lineno, 'trail': fam_trail, 'eof': fam_eof}
+            'lineno': fam_lineno, 'trail': fam_trail, 'eof': fam_eof, 'deepstack': fam_deepstack}
